@@ -3,12 +3,17 @@ They state the property on the real classes for multi-step histories and for tab
 import numpy as np
 
 
-def _tables(seed):
+def _tables(seed, variant='other'):
     import pandas as pd
     rs = np.random.RandomState(seed)
     z1 = rs.multivariate_normal([0, 0, 0], [[1, .85, .3], [.85, 1, .4], [.3, .4, 1]], 400)
     z2 = rs.multivariate_normal([0, 0, 0], [[1, -.85, -.2], [-.85, 1, .5], [-.2, .5, 1]], 400)
     cols = ['z', 'm', 'a']      # deliberately not alphabetical
+    if variant == 'same-margins':
+        # d2 carries the dependence of z2 on EXACTLY the column multisets of d1 (dyadic values k/64: sums, means, min/max, sorted
+        # values and hence every fitted marginal agree bit for bit); only the dependence differs
+        z1 = np.round(z1 * 64) / 64
+        z2 = np.column_stack([np.sort(z1[:, j])[np.argsort(np.argsort(z2[:, j]))] for j in range(3)])
     return pd.DataFrame(z1, columns=cols), pd.DataFrame(z2, columns=cols)
 
 
@@ -27,16 +32,16 @@ def _capture_cond(g, n, conditions):
     return out, rec
 
 
-def gm_refit_history(ctx, which):
+def _gm_refit_history(ctx, which, variant):
     """fit(data1); query; fit(data2); query  must equal  fresh fit(data2); query   (pdf/cdf for C13, conditional law for C12)."""
     from copulas.multivariate import GaussianMultivariate
     from copulas.univariate import GaussianUnivariate
-    d1, d2 = _tables(ctx.seed + 77)
+    d1, d2 = _tables(ctx.seed + 77, variant)
     pts = d2.iloc[:7]
     cond = {'m': 0.8}
     rep = ("import numpy as np, pandas as pd\nfrom vf.extra_oracles import _tables, _capture_cond\nfrom copulas.multivariate import GaussianMultivariate\n"
            "from copulas.univariate import GaussianUnivariate\n"
-           f"d1,d2=_tables({ctx.seed + 77})\npts=d2.iloc[:7]\n"
+           f"d1,d2=_tables({ctx.seed + 77}, {variant!r})\npts=d2.iloc[:7]\n"
            "g=GaussianMultivariate(distribution=GaussianUnivariate, random_state=3); g.fit(d1); g.probability_density(pts); g.sample(4, conditions={'m':0.8}); g.fit(d2)\n"
            "f=GaussianMultivariate(distribution=GaussianUnivariate, random_state=3); f.fit(d2)\n"
            "assert np.allclose(g.probability_density(pts), f.probability_density(pts), rtol=1e-12, atol=0)\n"
@@ -49,12 +54,12 @@ def gm_refit_history(ctx, which):
     g.fit(d2)
     f = GaussianMultivariate(distribution=GaussianUnivariate, random_state=3)
     f.fit(d2)
-    ctx.case(('refit-history', which), {'history': 'fit(d1); pdf; cdf; sample(cond); fit(d2); queries vs fresh fit(d2)'})
+    ctx.case(('refit-history', which, variant), {'history': 'fit(d1); pdf; cdf; sample(cond); fit(d2); queries vs fresh fit(d2)', 'second table': variant})
     if which == 'C13':
         a, b = g.probability_density(pts), f.probability_density(pts)
         la, lb = g.log_probability_density(pts), f.log_probability_density(pts)
         ok = np.allclose(a, b, rtol=1e-12, atol=0) and np.allclose(la, lb, rtol=1e-12, atol=1e-12)
-        ctx.obligation('oracle:refit-history:pdf', ok, 'correspondence', f'{a} vs {b}')
+        ctx.obligation(f'oracle:refit-history:pdf:{variant}', ok, 'correspondence', f'{a} vs {b}')
         if not ok:
             ctx.violation('oracle:refit-history:density-uses-stale-state',
                           f'probability_density after fit(d1); query; fit(d2) differs from a fresh model fitted on d2: {a[:3]} vs {b[:3]}',
@@ -62,11 +67,18 @@ def gm_refit_history(ctx, which):
     else:
         (_, ra), (_, rb) = _capture_cond(g, 4, cond), _capture_cond(f, 4, cond)
         ok = np.allclose(ra['mean'], rb['mean'], atol=1e-12) and np.allclose(ra['cov'], rb['cov'], atol=1e-12)
-        ctx.obligation('oracle:refit-history:conditional-law', ok, 'correspondence', f"{ra} vs {rb}")
+        ctx.obligation(f'oracle:refit-history:conditional-law:{variant}', ok, 'correspondence', f"{ra} vs {rb}")
         if not ok:
             ctx.violation('oracle:refit-history:conditional-law-uses-stale-state',
                           f"conditional mean/covariance after fit(d1); sample(cond); fit(d2) differ from a fresh model fitted on d2: mean {ra['mean']} vs {rb['mean']}",
                           {'refit_mean': ra['mean'].tolist(), 'fresh_mean': rb['mean'].tolist(), 'repro': rep})
+
+
+def gm_refit_history(ctx, which):
+    """second table: another law ('other'), and a table with exactly the margins of the first one but another dependence ('same-margins':
+    no fingerprint of the margins / labels / shape can tell the two fits apart)"""
+    for variant in ('other', 'same-margins'):
+        _gm_refit_history(ctx, which, variant)
 
 
 def gm_recovery(ctx):
